@@ -77,6 +77,14 @@ class BrentsRootFinder:
             self.next_abscissa is not None and abscissa == self.next_abscissa
         ), "Something went wrong"
 
+        if ordinate == 0 and self.fb == 0:
+            # Second exact root: interpolating between two zero ordinates
+            # would divide by zero, collapse the bracket onto the root
+            self.a, self.fa = abscissa, ordinate
+            self.b, self.fb = abscissa, ordinate
+            self.current_guess = abscissa
+            return
+
         # Update interval
         if self.fa * ordinate < 0:
             self.b, self.fb = abscissa, ordinate
